@@ -351,6 +351,36 @@ Ltac mred :=
 Lemma slen_pos : forall s, 0 < slen s.
 Proof. intro s. unfold slen, sector_len. destruct (ver s); reflexivity. Qed.
 
+(* the two length bounds checked by resize and write_data: anything below the
+   mini-stream cutoff fits both *)
+Lemma small_fits_mask : forall v n, n <= MINI_STREAM_CUTOFF -> n <= stream_len_mask v.
+Proof.
+  intros v n H. unfold MINI_STREAM_CUTOFF in H.
+  destruct v; unfold stream_len_mask, V3_STREAM_LEN_MASK, V4_STREAM_LEN_MASK; lia.
+Qed.
+
+Lemma small_fits_sectors : forall s n, n <= MINI_STREAM_CUTOFF -> n <= MAX_REGULAR_SECTOR * slen s.
+Proof.
+  intros s n H. unfold MINI_STREAM_CUTOFF in H. unfold slen, sector_len, MAX_REGULAR_SECTOR.
+  destruct (ver s); cbn [sector_shift]; lia.
+Qed.
+
+Lemma mask_check_false : forall s n,
+  n <= stream_len_mask (ver s) -> (stream_len_mask (ver s) <? n) = false.
+Proof. intros s n H. apply N.ltb_ge. exact H. Qed.
+
+Lemma both_check_false : forall s n,
+  n <= MAX_REGULAR_SECTOR * slen s -> n <= stream_len_mask (ver s) ->
+  (N.min (MAX_REGULAR_SECTOR * slen s) (stream_len_mask (ver s)) <? n) = false.
+Proof. intros s n H1 H2. apply N.ltb_ge. apply N.min_glb; assumption. Qed.
+
+Lemma both_check_false_small : forall s n,
+  n <= MINI_STREAM_CUTOFF ->
+  (N.min (MAX_REGULAR_SECTOR * slen s) (stream_len_mask (ver s)) <? n) = false.
+Proof.
+  intros s n H. apply both_check_false; [apply small_fits_sectors | apply small_fits_mask]; exact H.
+Qed.
+
 Lemma seek_sector_ok : forall s sid off,
   off <= slen s -> sid < nsect s -> seek_sector sid off s = (s, Ok tt).
 Proof.
